@@ -158,7 +158,8 @@ def report_diffs(ctx, diffs, origin, prop_scope=None):
         sig = classify(d["items"], d["exp"], d["got"])
         per_sig.setdefault(sig, []).append(d)
     for sig, ds in sorted(per_sig.items()):
-        for d in ds[:3]:
+        ds.sort(key=lambda d: len(d["input"]))
+        for d in ds[:2]:
             line = cps_to_str(d["input"])
             ctx.violation({"kind": origin, "via": d.get("via", "direct"), "items": d["items"], "input": d["input"],
                            "exp": d["exp"], "got": d["got"]},
@@ -264,6 +265,146 @@ def replay_c13(ctx):
     for b in res["bad"]:
         e = events[b["line"] - 1]
         diffs.append({"items": e["items"], "input": e["input"], "exp": b["exp"], "got": e["got"], "via": e["via"]})
-    report_diffs(ctx, diffs, "replay-of-stored-case")
+    report_diffs(ctx, diffs, payload.get("kind", "replay"))
     ctx.cover(traces_validated_against_impl=len(events), evaluations=len(events), distinct_nontrivial=0,
               rule="replay of one stored case", samples=[{"line": cps_to_str(payload["input"])}])
+
+
+# ------------------------------------------------------------------ C14 helpers
+ASSUMPTIONS_C14 = [
+    "every result observed for a line is compared with the first result observed for the same string on a fresh LineParser "
+    "(outcome, text, attributes as a multiset incl. position, length, SourcePosition, properties, TextForAttribute)",
+    "dialogue runs: the compared lines contain no inline expression, so the string handed to the markup parser is the script line; "
+    "a scenario whose text the Yarn front end does not hand over unchanged is not judged (counted)",
+    "error texts are not compared, only error-ness",
+]
+
+
+def history_diff_signature(ref, got):
+    if ref["outcome"] != got["outcome"]:
+        return "markup-history:outcome"
+    strip = lambda r: (r["got"]["text"], sorted(json.dumps({k: v for k, v in a.items() if k != "src"}, sort_keys=True)
+                                                for a in r["got"]["attrs"]))
+    if strip(ref) == strip(got):
+        return "markup-history:source-position"
+    return "markup-history:result"
+
+
+def describe_history(line, ref, got):
+    def res(e):
+        if e["outcome"] != "result":
+            return e["outcome"]
+        return "text=%r attrs=[%s]" % (cps_to_str(e["got"]["text"]), "; ".join(
+            "%s@%d+%d src=%d" % (cps_to_str(a["name"]), a["pos"], a["len"], a["src"]) for a in e["got"]["attrs"]))
+    return "line %r: on a fresh parser %s; %s (history/run %d) %s" % (line, res(ref), got["p"], got["h"], res(got))
+
+
+def run_history(ctx, n=None, cases=None, label="MarkupHistoryTrace (reused parser / runner vs fresh)"):
+    args = ["markup", "history", "--out", ctx.path("htrace.ndjson"), "--lines", ctx.path("hlines.ndjson"),
+            "--cases-out", ctx.path("hcases.ndjson")]
+    args += ["--cases", cases] if cases else ["--n", n]
+    p = ctx.harness(args, timeout=1800)
+    st = last_json(p.stdout)
+    t = ctx.tlc("MarkupHistoryTrace", files=[("trace.ndjson", ctx.path("htrace.ndjson"))], workers=1, timeout=2400, label=label)
+    res = t.printed("RESULT")
+    if not res:
+        raise vlib.MachineryError("MarkupHistoryTrace printed no RESULT:\n" + t.tail())
+    res = res[-1]
+    events = vlib.read_ndjson(ctx.path("htrace.ndjson"))
+    if res["lines"] != len(events):
+        raise vlib.MachineryError("history trace not consumed completely: %d of %d" % (res["lines"], len(events)))
+    lines = {l["id"]: l["cps"] for l in vlib.read_ndjson(ctx.path("hlines.ndjson"))}
+    hcases = vlib.read_ndjson(ctx.path("hcases.ndjson"))
+    per_sig = {}
+    for b in res["bad"]:
+        got = events[b["line"] - 1]
+        if b["ref"] == 0:
+            raise vlib.MachineryError("history trace: line %d first seen on a non-fresh parser" % b["id"])
+        ref = events[b["ref"] - 1]
+        per_sig.setdefault(history_diff_signature(ref, got), []).append((b, ref, got))
+    for sig, lst in sorted(per_sig.items()):
+        lst.sort(key=lambda x: len(lines[x[0]["id"]]))
+        shown = [next((x for x in lst if x[2]["p"] == kind), None) for kind in ("reused", "runner")]
+        for b, ref, got in [x for x in shown if x is not None]:
+            ctx.violation({"kind": "history", "case": hcases[b["h"] - 1], "line": lines[b["id"]]},
+                          "[%d case(s) of this class] %s" % (len(lst), describe_history(cps_to_str(lines[b["id"]]), ref, got)),
+                          signature=sig)
+    st["checked"] = res["checked"]
+    st["bad"] = len(res["bad"])
+    st["events_list"] = events
+    st["sample"] = cps_to_str(lines[len(lines) // 2 + 1]) if lines else ""
+    return st
+
+
+def history_selftest(ctx, events):
+    """Corrupt the SourcePosition of one accepted reused-parser event: the trace spec must reject exactly it."""
+    out, picked = [], None
+    for i, e in enumerate(events[:600]):
+        if picked is None and e.get("p") in ("reused", "runner") and e["outcome"] == "result" and e["got"]["attrs"]:
+            e = json.loads(json.dumps(e))
+            e["got"]["attrs"][0]["src"] += 1
+            picked = i + 1
+        out.append(e)
+    if picked is None:
+        raise vlib.MachineryError("history self-test: no event to corrupt")
+
+    def bad_lines(evs, name, label):
+        vlib.write_ndjson(ctx.path(name), evs)
+        t = ctx.tlc("MarkupHistoryTrace", files=[("trace.ndjson", ctx.path(name))], workers=1, timeout=600, label=label)
+        return {b["line"] for b in t.printed("RESULT")[-1]["bad"]}
+    base = bad_lines(events[:600], "hself0.ndjson", "MarkupHistoryTrace (self-test baseline)")
+    new = bad_lines(out, "hself1.ndjson", "MarkupHistoryTrace (self-test, one corrupted SourcePosition)") - base
+    if picked in base or new != {picked}:
+        raise vlib.MachineryError("history self-test failed: corrupted event %d, newly rejected %s" % (picked, sorted(new)))
+    return {"corrupted_event": picked, "rejected": sorted(new), "ok": True}
+
+
+# ------------------------------------------------------------------ C15 helpers
+ASSUMPTIONS_C15 = [
+    "text length and attribute ranges are counted in characters = Go runes of the returned text (an invalid byte counts as one character)",
+    "a call that has not returned after 5 s is reported as non-terminating",
+    "for arbitrary strings only the safety statements of the property are judged (no functional oracle exists for them)",
+]
+
+
+def run_safety(ctx, n=None, beh=None, inputs=None, label="MarkupSafetyTrace (arbitrary strings)"):
+    args = ["markup", "fuzz", "--out", ctx.path("strace.ndjson")]
+    if inputs:
+        args += ["--inputs", inputs]
+    else:
+        args += ["--n", n]
+        if beh:
+            args += ["--beh", beh]
+    p = ctx.harness(args, timeout=2400)
+    st = last_json(p.stdout)
+    t = ctx.tlc("MarkupSafetyTrace", files=[("trace.ndjson", ctx.path("strace.ndjson"))], workers=1, timeout=2400, label=label)
+    res = t.printed("RESULT")
+    if not res:
+        raise vlib.MachineryError("MarkupSafetyTrace printed no RESULT:\n" + t.tail())
+    res = res[-1]
+    events = vlib.read_ndjson(ctx.path("strace.ndjson"))
+    if res["lines"] != len(events):
+        raise vlib.MachineryError("safety trace not consumed completely: %d of %d" % (res["lines"], len(events)))
+    per = {}
+    for b in res["bad"]:
+        per.setdefault(b["what"], []).append(events[b["line"] - 1])
+    for what, evs in sorted(per.items()):
+        evs.sort(key=lambda e: len(e["hex"]))
+        # the shortest input, the shortest without a colon (no implicit character attribute), the shortest non-ASCII one
+        shown = [evs[0]] + [next((e for e in evs if pred(bytes.fromhex(e["hex"]))), None)
+                            for pred in (lambda b: b":" not in b, lambda b: b":" not in b and any(c > 127 for c in b))]
+        uniq = []
+        for e in shown:
+            if e is not None and e not in uniq:
+                uniq.append(e)
+        for e in uniq:
+            raw = bytes.fromhex(e["hex"])
+            ctx.violation({"kind": e["kind"], "hex": e["hex"]},
+                          "[%d%s input(s) of this class] ParseMarkup(%r): %s (outcome %s, text of %d characters, attribute ranges %s, TextForAttribute panics %s)"
+                          % (len(evs), "+" if len(res["bad"]) >= 1000 else "", raw.decode("utf-8", "backslashreplace"), what,
+                             e["outcome"], e["textLen"], e["attrs"], e["tfa"]),
+                          signature="markup-safety:" + what)
+    st["results"] = res["results"]
+    st["bad"] = len(res["bad"])
+    st["events_list"] = events
+    return st
